@@ -58,3 +58,11 @@ Example c06_example :
   traces_ok [[0; 1]; [0]; [1]] [[(0, 5); (1, 7); (0, 5)]; [(0, 5); (2, 7); (0, 5)]] = true /\
   traces_ok [[0; 1]; [0]; [1]] [[(0, 5); (0, 6)]; [(0, 6); (0, 5)]] = false.
 Proof. vm_compute. split; reflexivity. Qed.
+
+(** the finite sweep can be run in slices (used for 5 layouts with the extracted code in the thorough tier):
+    if every slice is true the whole sweep is *)
+From PGV Require Import RoutesSweep.
+Theorem c06_slices_cover : forall n m, 0 < m ->
+  (forall k, k < m -> order_independent_slice n k m = true) -> order_independent_upto n = true.
+Proof. exact slices_cover. Qed.
+Print Assumptions c06_slices_cover.
